@@ -67,6 +67,22 @@ contract(
     note="h5py dispatch to _is_dense_x_integers / _is_sparse_x_integers (slices proved, c_validation_utils.py)",
 )
 
+# The dispatch itself is small enough for a view: whichever helper is called receives, by keyword, the
+# tolerance 1e-10 - the helpers' own defaults differ (1e-10 dense, 1e-6 sparse) and their contracts
+# (c_validation_utils.py) are parametric in eps, so "X is taken for integers only if every value is
+# within 1e-10 of one" needs this link (seeded change C16_9 dropped the keyword).  On a return path
+# the argument of the helper that was not called is an arbitrary value (arg_of), hence the `or`.
+contract(
+    U + 'is_x_integers#eps',
+    properties=['C16'], mode='slice', unexpected_exceptions='allowed',
+    tracked=['encoding_type'],
+    params={},
+    ghost=dict(capture_calls=['_is_dense_x_integers', '_is_sparse_x_integers'],
+               only_kinds=['ensures']),
+    ensures=["arg_of('_is_dense_x_integers', 'eps') == 1e-10 or arg_of('_is_sparse_x_integers', 'eps') == 1e-10"],
+    min_obligations=1,
+)
+
 OBS = "df_index(h5ad_path, 'obs')"
 VAR = "df_index(h5ad_path, 'var')"
 NEEDS_CHANGE = "(layer != 'X' or MV is not None or CI)"
